@@ -56,6 +56,12 @@ let () =
            st := set_seed z;
            chk !st;
            Printf.printf "S %s # idx=%d\n" (state_string !st) (int_of_z (seed_index z))
+       | [ "E"; seed ] ->
+           (* re-seeding a used generator: the model's set_seed does not depend on the old state *)
+           let z = z_of_seed seed in
+           st := set_seed z;
+           chk !st;
+           Printf.printf "E %s # idx=%d\n" (state_string !st) (int_of_z (seed_index z))
        | "X" :: rest when List.length rest = 17 ->
            let a = Array.of_list rest in
            let ok = ref true in
